@@ -8,6 +8,8 @@ Kept as data so that MANIFEST.json, the check driver and the evidence writer agr
 UNITS = {
     "comm": dict(template="units/comm.vt.rs", rlimit=200,
                  about="the poll()-driven exchange loop of communicate.rs (unix variant) against the exchange model"),
+    "spawn": dict(template="units/spawn.vt.rs", rlimit=400,
+                  about="Popen::create / os_start / setup_streams / do_exec / set_inheritable / make_pipe against the spawn world (descriptor sets, child image, launch-status pipe)"),
     "pstate": dict(template="units/pstate.vt.rs", rlimit=50,
                    about="the Popen child-state machine (waitpid/wait/wait_timeout/poll/terminate/kill/send_signal/Drop) against the one-child process model"),
 }
@@ -18,6 +20,10 @@ PROPS = {
     "C02": dict(units=["comm"], kani=[], level="proof"),
     "C03": dict(units=["comm"], kani=[], level="proof"),
     "C04": dict(units=["comm"], kani=[], level="proof"),
+    "C05": dict(units=["spawn"], kani=["w_make_standard_stream", "w_dup2", "w_pipe", "w_set_inheritable"], level="proof"),
+    "C06": dict(units=["spawn"], kani=["w_fork_ids", "w_os_to_cstring_b4"], level="proof"),
+    "C07": dict(units=["spawn"], kani=["w_pipe", "w_fork_ids"], level="proof"),
+    "C18": dict(units=["spawn"], kani=["w_reset_sigpipe"], level="proof"),
     "C09": dict(units=["pstate"], kani=["w_decode_exit_status", "w_waitpid"], level="proof"),
     "C10": dict(units=["pstate"], kani=["w_kill"], level="proof"),
     "C11": dict(units=["pstate"], kani=[], level="proof"),
@@ -27,6 +33,10 @@ PROPS = {
 # (property, regex on obligation id) -> scenario binary (scenarios/src/bin/<name>.rs) and what it shows.
 # A scenario exits 1 and prints FAIL when the real crate, built from /repo's working tree, misbehaves.
 SCENARIOS = [
+    ("C05", r"spawn:.*setup_streams:ensures:stdout is Merge && stderr is Merge", "d1_merge_merge"),
+    ("C06", r"spawn:.*do_exec:precondition:setgid:.*uid\.is_none", "d4_setuid_setgid"),
+    ("C07", r"spawn:.*(create|os_start):ensures:r is Err .*child_unreaped", "d5_detached_zombie"),
+    ("C17", r"spawn:.*precondition:(set_current_dir|chdir|os_to_cstring|prep_exec|format_env_opt):", "d9_cwd_alloc"),
     ("C04", r"comm:.*maybe_poll:ensures:.*deadline\.is_some\(\) && final\(w\)\.s\.now \+ 1_000_000", "d2_pollerr_timeout"),
     ("C04", r"comm:.*read_into:.*(precondition|requires).*old\(w\)\.s\.now < deadline", "d3_deadline_flood"),
 ]
@@ -34,6 +44,17 @@ SCENARIOS = [
 # --------------------------------------------------------------------------------------------- assumptions
 # free-text trusted base per unit (in addition to the mechanically listed external_body/axiom items)
 UNIT_TRUST = {
+    "spawn": [
+        "spawn world (units/models/spawn.rs): pipe() yields two fresh inheritable ends >= 3 (the parent's 0..2 are open); fork copies the descriptor table; "
+        "dup2(f, n) makes n refer to f's open file; the launch-status pipe delivers EOF iff exec happened, else exactly the 4 bytes the child wrote",
+        "implicit drops are NOT modelled by Verus: that the child ends and a failed attempt's Files are closed when they go out of scope is Rust ownership",
+        "caller-supplied Files (Redirection::File/RcFile) are not library pipes and sit on descriptors >= 3 (precondition user_file_ok)",
+        "R6/R9 seams: dup2_file = posix::dup2(f.as_raw_fd(), n); fcntl_set_cloexec = the F_GETFD/F_SETFD pair (Kani w_set_inheritable); JustExec::call = the closure returned by posix::prep_exec (its body PrepExec::exec is outside this unit); "
+        "opt_osstr/opt_cstr/opt_vec = Option::as_deref; format_env_opt = as_deref().map(format_env); to_os_vec = iter().map(to_owned).collect(); drop_file = drop(File)",
+        "contracts of Popen::drop_impl and os_wait are restated from unit pstate (proved there); a blocking wait is assumed not to fail with an error other than ECHILD",
+        "the parent's read of the launch-status pipe failing (e.g. EINTR) is not covered by the no-child-left clause",
+        "io::Error construction from an errno does not allocate (std Repr::Os)",
+    ],
     "pstate": [
         "process-state model (units/models/procstate.rs): waitpid returns a child's status only after it terminated and then reaps it; "
         "ECHILD means somebody else reaped it; WNOHANG returns 0 only while the child exists; sleep(d) advances the clock by at least d",
@@ -65,6 +86,7 @@ KANI = {
     "w_pipe": dict(about="posix::pipe: two fresh descriptors of one new pipe, read end first, nothing leaked on failure", tags=["C05", "C07", "C08"]),
     "w_fork_ids": dict(about="posix::fork/setuid/setgid/setpgid pass-through and result mapping", tags=["C06", "C07"]),
     "w_make_standard_stream": dict(about="make_standard_stream: handle on fd 0/1/2 whose drop never closes the descriptor", tags=["C05"]),
+    "w_set_inheritable": dict(about="set_inheritable(f,false) = F_GETFD + F_SETFD(old|FD_CLOEXEC): descriptor becomes close-on-exec, other flags and other descriptors untouched; (f,true) is a no-op (R6 seam of the spawn unit)", tags=["C08", "C05"]),
     "w_os_to_cstring_b4": dict(about="os_to_cstring: NUL => EINVAL, else bytes verbatim", bounded="strings of at most 4 bytes", tags=["C06"]),
 }
 KANI_TRUST = [
